@@ -72,6 +72,21 @@ fn run_op(ctx: &Ctx, ch: &Channel, name: &str, chan: u16, seq: u32) -> (String, 
                 Err(e) => (format!("Err({})", err_name(&e)), "consumer".into()),
             }
         }
+        "handle_ops" => {
+            // four requests: a declare answered with counts (0, 0), then purge, get and delete
+            // through the Queue handle, which remembers those counts
+            let want = expected_only(name, chan, seq).1;
+            match ch.queue_declare("emptyq", QueueDeclareOptions::default()) {
+                Ok(q) => {
+                    let d = (q.declared_message_count(), q.declared_consumer_count());
+                    let p = q.purge().map_err(|e| err_name(&e));
+                    let g = q.get(true).map(|g| g.map(|g| g.delivery.delivery_tag())).map_err(|e| err_name(&e));
+                    let x = q.delete(QueueDeleteOptions::default()).map_err(|e| err_name(&e));
+                    (format!("declared {:?} purge {:?} get {:?} delete {:?}", d, p, g, x), want)
+                }
+                Err(e) => (format!("Err({})", err_name(&e)), want),
+            }
+        }
         "declare_nowait" => (format!("{:?}", ch.queue_declare_nowait("nw", QueueDeclareOptions::default()).map(|q| q.name().to_string()).map_err(|e| err_name(&e))), "Ok(\"nw\")".into()),
         "purge_nowait" => (format!("{:?}", ch.queue_purge_nowait("q").map_err(|e| err_name(&e))), "Ok(())".into()),
         "bind_nowait" => (format!("{:?}", ch.queue_bind_nowait("q", "x", "k", FieldTable::new()).map_err(|e| err_name(&e))), "Ok(())".into()),
@@ -92,6 +107,7 @@ fn expected_only(name: &str, chan: u16, seq: u32) -> ((), String) {
         "purge" | "delete" => format!("{:?}", Ok::<u32, String>(a)),
         "consume_cancel" => format!("tag ctag-{}-{} cancel Ok(()) last Ok(\"ClientCancelled\")", chan, seq),
         "get_msg" => format!("Ok(Some(({}, {}, \"body-{}-{}\")))", a, b, chan, seq),
+        "handle_ops" => format!("declared (Some(0), Some(0)) purge {:?} get Ok(None) delete {:?}", Ok::<u32, String>(StdBroker::reply_values(chan, seq + 1).0), Ok::<u32, String>(StdBroker::reply_values(chan, seq + 3).0)),
         "qos" | "recover" | "bind" | "confirm" | "declare_nowait" | "purge_nowait" | "bind_nowait" | "delete_nowait" | "publish" => "Ok(())".to_string(),
         "get_empty" => "Ok(None)".to_string(),
         _ => String::new(),
@@ -102,6 +118,7 @@ fn expected_only(name: &str, chan: u16, seq: u32) -> ((), String) {
 fn seqs_used(op: &str) -> u32 {
     match op {
         "consume_cancel" | "consume_srv_cancel" => 2,
+        "handle_ops" => 4,
         "publish" => 0, // a publish is not a request the broker numbers (Basic.Publish has no reply)
         _ => 1,
     }
@@ -123,6 +140,7 @@ impl Scenario for Rpc {
             json!({"programs": [["declare", "purge", "delete"], ["declare", "purge", "delete"]], "hold": false}),
             json!({"programs": [["consume_srv_cancel", "purge"], ["declare", "consume_srv_cancel"]], "hold": false}),
             json!({"programs": [["get_msg", "purge"], ["get_empty", "get_msg"], ["declare", "get_msg"]], "hold": true}),
+            json!({"programs": [["handle_ops", "purge"], ["purge", "handle_ops"]], "hold": true}),
             // channel ids closed and opened again (explicitly and by the allocator, channel_max 2)
             // before the calls: a reply must still find the channel that asked
             json!({"programs": [["declare", "purge"], ["purge", "declare"]], "hold": true, "reuse": "ab"}),
@@ -303,6 +321,12 @@ impl Scenario for ChClose {
             }
         }
         v.push(json!({"n": 1, "state": "crossing-reuse"}));
+        // every kind of reply code and text (no deviation: the values are what is swept)
+        for code in [0u16, 1, 200, 311, 404, 541, 65535] {
+            for (text, state) in [("", "inflight"), ("NOT_FOUND - no queue 'q' in vhost '/'", "consumers"), ("gr\u{fc}\u{df} \u{4e16}", "idle")] {
+                v.push(json!({"n": 1, "state": state, "code": code, "text": text, "codes": true}));
+            }
+        }
         // fine mode: client threads run between the I/O thread's individual takes and hand-overs
         v.push(json!({"n": 2, "state": "inflight", "fine": true}));
         // (one consumer only: the order in which several consumers of a channel are notified is the
@@ -316,6 +340,9 @@ impl Scenario for ChClose {
         v
     }
     fn bound(&self, tier: &str, p: &Value) -> usize {
+        if p["codes"] == true {
+            return if tier == "thorough" { 1 } else { 0 };
+        }
         if p["state"] == "crossing-reuse" {
             return 2;
         }
@@ -343,7 +370,9 @@ impl Scenario for ChClose {
         }
         let reuse = state == "crossing-reuse";
         let state = if reuse { "crossing".to_string() } else { state };
-        frames.push(chan_close_frame(n, 406, "PRECONDITION_FAILED"));
+        let code = p["code"].as_u64().unwrap_or(406) as u16;
+        let text = p["text"].as_str().unwrap_or("PRECONDITION_FAILED").to_string();
+        frames.push(chan_close_frame(n, code, &text));
         // offered once channel n's actor has sent its first request (so that the state exists)
         let need = match state.as_str() {
             "consumers" => 3, // open + two consumes
@@ -470,7 +499,9 @@ impl Scenario for ChClose {
         let reuse = state == "crossing-reuse";
         let state = if reuse { "crossing" } else { state };
         let closed = o.io_events.iter().any(|e| matches!(e, IoEvent::Frame(AMQPFrame::Method(c, AMQPClass::Channel(amq_protocol::protocol::channel::AMQPMethod::Close(_)))) if *c == n));
-        let want_err = format!("Err(ServerClosedChannel({},406,PRECONDITION_FAILED))", n);
+        let code = p["code"].as_u64().unwrap_or(406);
+        let text = p["text"].as_str().unwrap_or("PRECONDITION_FAILED").to_string();
+        let want_err = format!("Err(ServerClosedChannel({},{},{}))", n, code, text);
         for chan in 1..=3u16 {
             let log = o.logs.get(&format!("c{}", chan)).cloned().unwrap_or_default();
             if chan != n {
@@ -492,7 +523,7 @@ impl Scenario for ChClose {
                 // the client's own Channel::close is the call in flight (crossing) or the next call
                 // (idleclose) when the server closes channel n: it is that call which reports the
                 // server's close (the server's Close always precedes its CloseOk in the stream)
-                let ok = log.iter().any(|l| *l == format!("chclose -> Err(\"ServerClosedChannel({},406,PRECONDITION_FAILED)\")", n));
+                let ok = log.iter().any(|l| *l == format!("chclose -> Err(\"ServerClosedChannel({},{},{})\")", n, code, text));
                 if !ok {
                     v.push(("chclose:close-call-result".into(), format!("channel {} (state {}): Channel::close was the first call to meet the server's close and must report it: {:?}", n, state, log)));
                 }
@@ -528,7 +559,7 @@ impl Scenario for ChClose {
                 if state != "inflight" {
                     for i in 0..n_cons {
                         let msgs: Vec<&String> = log.iter().filter(|l| l.starts_with(&format!("consumer{} <- ", i))).collect();
-                        let want = format!("consumer{} <- ServerClosedChannel[ServerClosedChannel({},406,PRECONDITION_FAILED)]", i, n);
+                        let want = format!("consumer{} <- ServerClosedChannel[ServerClosedChannel({},{},{})]", i, n, code, text);
                         if msgs.len() != 1 || *msgs[0] != want {
                             v.push(("chclose:consumer-terminal".into(), format!("consumer {} saw {:?} expected [{}]", i, msgs, want)));
                         }
@@ -790,6 +821,11 @@ impl Scenario for Ids {
             json!({"max": 2, "ops": ["none", "none", "none", "call:0", "close:0", "none", "call:2", "some:0", "some:3", "close:1", "some:2", "call:3", "none"]}),
             json!({"max": 1, "ops": ["none", "none", "close:0", "some:1", "none", "call:1", "close:1", "none", "call:2", "some:1"]}),
             json!({"max": 3, "ops": ["some:2", "none", "none", "none", "close:0", "some:2", "none", "close:1", "close:2", "none", "none", "none"]}),
+            // channels that go away without Channel::close: dropped, dropped while their thread
+            // unwinds from a panic, closed by the server (then dropped)
+            json!({"max": 2, "ops": ["some:1", "none", "unwind:0", "some:1", "call:2", "drop:1", "none", "call:3", "none", "unwind:2", "unwind:3", "none", "none", "none"]}),
+            json!({"max": 2, "ops": ["none", "none", "srvclose:0", "srvclose:1", "some:2", "none", "call:2", "call:3", "none", "srvclose:3", "none", "srvclose:2", "srvclose:5", "none", "none", "none"]}),
+            json!({"max": 3, "ops": ["none", "none", "none", "srvclose:1", "close:0", "drop:2", "some:3", "none", "none", "none", "call:3", "call:4", "call:5"]}),
         ]
     }
     fn bound(&self, tier: &str, _p: &Value) -> usize {
@@ -807,7 +843,13 @@ impl Scenario for Ids {
         let mut hs = Handshake::default();
         // the server imposes no limit of its own: the client's option decides (0 = 65535)
         hs.tune = (0, 131072, 0);
-        let broker = StdBroker::new(hs);
+        let mut broker = StdBroker::new(hs);
+        // server-initiated closes, released by the program itself ("srvclose")
+        for id in 1..=3u16 {
+            for k in 0..4 {
+                broker.pushes.push(Push::new(&format!("sc{}.{}", id, k), vec![chan_close_frame(id, 406, "bye")]).manual());
+            }
+        }
         let ops: Vec<String> = p["ops"].as_array().unwrap().iter().map(|x| x.as_str().unwrap().to_string()).collect();
         Built {
             broker: Box::new(broker),
@@ -833,6 +875,27 @@ impl Scenario for Ids {
                             Some(c) => {
                                 let r = c.queue_purge("q");
                                 ctx.log(format!("{} -> {:?} on {}", op, r.map_err(|e| err_name(&e)), c.channel_id()));
+                            }
+                            None => ctx.log(format!("{} -> skipped", op)),
+                        },
+                        "drop" | "unwind" | "srvclose" => match chans.get_mut(arg).and_then(|c| c.take()) {
+                            Some(c) => {
+                                let id = c.channel_id();
+                                if kind == "srvclose" {
+                                    let pushed = (0..4).any(|k| ctx.force_push(&format!("sc{}.{}", id, k)));
+                                    let r = c.queue_purge("q");
+                                    ctx.log(format!("{} -> {:?} on {} (pushed {})", op, r.map_err(|e| err_name(&e)), id, pushed));
+                                    drop(c);
+                                } else if kind == "unwind" {
+                                    let r = std::panic::catch_unwind(std::panic::AssertUnwindSafe(move || {
+                                        let _held = c;
+                                        panic!("worker failed");
+                                    }));
+                                    ctx.log(format!("{} -> panicked {} on {}", op, r.is_err(), id));
+                                } else {
+                                    drop(c);
+                                    ctx.log(format!("{} -> dropped on {}", op, id));
+                                }
                             }
                             None => ctx.log(format!("{} -> skipped", op)),
                         },
@@ -923,6 +986,21 @@ impl Scenario for Ids {
                             v.push(("ids:call-on-channel".into(), format!("op {} {}: {} expected {}", i, op, got, want)));
                             return v;
                         }
+                    }
+                }
+                "drop" | "unwind" | "srvclose" => {
+                    if let Some(Some(id)) = handed.get(arg as usize).cloned() {
+                        let want = match kind {
+                            "drop" => format!("dropped on {}", id),
+                            "unwind" => format!("panicked true on {}", id),
+                            _ => format!("Err(\"ServerClosedChannel({},406,bye)\") on {} (pushed true)", id, id),
+                        };
+                        if got != want {
+                            v.push(("ids:release".into(), format!("op {} {}: {} expected {}", i, op, got, want)));
+                            return v;
+                        }
+                        open.remove(&id);
+                        handed[arg as usize] = None;
                     }
                 }
                 _ => {
